@@ -228,3 +228,13 @@ M("C19-flag-dropped", "C19", "R19.2", ("utils.py", "        include_nan=include_
 M("C19-size-axis", "C19", "R19.2", ("utils.py", "    s3 = real_samples(\n        size=size[2],", "    s3 = real_samples(\n        size=size[1],"))
 M("C19-flag-constant", "C19", "R19.2", ("utils.py", "    s1 = real_samples(\n        size=size[0],\n        dtype=dtype,\n        include_infinity=include_infinity,\n        include_zero=include_zero,\n        include_subnormal=include_subnormal,\n        include_nan=include_nan,\n        nonnegative=nonnegative,\n        include_huge=include_huge,\n        min_value=min_values[0],\n        max_value=max_values[0],\n    )\n    s2 = real_samples(\n        size=size[1],\n        dtype=dtype,\n        include_infinity=include_infinity,\n        include_zero=include_zero,\n        include_subnormal=include_subnormal,\n        include_nan=include_nan,\n        nonnegative=nonnegative,\n        include_huge=include_huge,\n        min_value=min_values[1],\n        max_value=max_values[1],\n    )\n    s1, s2 = s1.reshape(1, -1)", "    s1 = real_samples(\n        size=size[0],\n        dtype=dtype,\n        include_infinity=include_infinity,\n        include_zero=include_zero,\n        include_subnormal=include_subnormal,\n        include_nan=include_nan,\n        nonnegative=nonnegative,\n        include_huge=include_huge,\n        min_value=min_values[0],\n        max_value=max_values[0],\n    )\n    s2 = real_samples(\n        size=size[1],\n        dtype=dtype,\n        include_infinity=include_infinity,\n        include_zero=True,\n        include_subnormal=include_subnormal,\n        include_nan=include_nan,\n        nonnegative=nonnegative,\n        include_huge=include_huge,\n        min_value=min_values[1],\n        max_value=max_values[1],\n    )\n    s1, s2 = s1.reshape(1, -1)"))
 N("C19-neutral-guard-added", "C19", ("utils.py", "    if include_huge and num > 3:", "    if include_huge and num >= 4:"))
+
+# ----------------------------------------------------------------------------- C12
+APM = "apmath.py"
+M("C12-eps-loses-term", "C12", "R12.1", (APM, "                eps_i = ctx.select(p, eps_ip1, f_j)", "                eps_i = ctx.select(p, eps_ip1, eps_i)"))
+M("C12-select-inverted", "C12", "R12.1", (APM, "                f_lst.append(ctx.select(p, f_j, zero))", "                f_lst.append(ctx.select(p, zero, f_j))"))
+M("C12-nztopk-count", "C12", "R12.1", (APM, "        nzcount.append(nzcount[-1] + ctx.select(b, ione, izero))", "        nzcount.append(nzcount[-1] + ione)"))
+M("C12-nztopk-two", "C12", "R12.1", (APM, "        return [ctx.select(flag, seq[1], seq[0]), ctx.select(flag, seq[0], seq[1])]", "        return [ctx.select(flag, seq[1], seq[0]), ctx.select(flag, seq[1], seq[0])]"))
+M("C12-vecsum-drops-error", "C12", "R12.1", (APM, "        s, e = two_sum(ctx, seq[i], s, fix_overflow=fix_overflow, assume_fma=fast)\n        e_lst.insert(0, e)", "        s, e = two_sum(ctx, seq[i], s, fix_overflow=fix_overflow, assume_fma=fast)\n        e_lst.insert(0, e if i else s * 0)"))
+M("C12-seed-maxsize", "C12", "R12.2", (APM, "max_size = {numpy.float16: 4, numpy.float32: 12, numpy.float64: 40}[dtype]", "max_size = {numpy.float16: 3, numpy.float32: 11, numpy.float64: 39}[dtype]"))
+N("C12-neutral-ne-to-not-eq", "C12", (APM, "                p = ctx.ne(eps_ip1, zero)", "                p = ctx.logical_not(ctx.eq(eps_ip1, zero))"))
